@@ -32,6 +32,29 @@ def run(rep):
                 if re.match(r"(?i)^\s*(select|with)\b", l):
                     f.write(l)
         quick = rep.tier == "quick"
+        # plus SELECT / set-operation statements of the verification grammar (FROM-first, WITH forms, every clause subset ...)
+        ng = 2500 if quick else 40000
+        rcg, outg = verif.sh(["python3", os.path.join(verif.ROOT, "checks", "gen_sql_grammar.py"), str(rep.seed), str(ng), "--kinds", "select,setop"], timeout=1200)
+        if rcg != 0:
+            broken.append({"obligation": "harness:gen_sql_grammar", "detail": outg[-400:]})
+        # plus long queries (a select list of several KB, so that a token crosses the lexer's buffer boundary at a position
+        # that the embedding prefix shifts) ending in tokens that need look-ahead
+        longq = []
+        for tail in ("$doc$heredoc body$doc$ AS h", "'it''s' AS s", "x'4142' AS b", "a.b.c AS d", "1e5 AS e", "`q``q` AS q", "{p:UInt8} AS p", "x::Tuple(a UInt8, b String) AS t", "/* c */ 1 AS z"):
+            for size in (4000, 4060, 4080, 4090, 4096, 8180):
+                cols = []
+                n = 0
+                while n < size:
+                    c = "column_%d" % len(cols)
+                    cols.append(c)
+                    n += len(c) + 2
+                longq.append("SELECT " + ", ".join(cols) + ", " + tail + " FROM t")
+        with open(sel, "a", encoding="utf-8", errors="surrogateescape") as f:
+            for l in outg.splitlines():
+                if re.match(r"(?i)^\s*(select|with|from|\()", l) and not re.search(r"(?i)\b(format|settings|into\s+outfile)\b", l):
+                    f.write(l + "\n")
+            for l in longq:
+                f.write(l + "\n")
         runs = [(["-in", sel, "-q", "-fresh", "25" if quick else "50", "-compose", "4000" if quick else "20000", "-seed", str(rep.seed)], 1200)]
         if not quick:
             runs.append((["-corpus", os.path.join(verif.REPO, "parser", "testdata"), "-q", "-compose", "40000", "-seed", str(rep.seed)], 3000))
@@ -55,10 +78,14 @@ def run(rep):
                     rep.violation("input", "embedded rendering differs: " + line[:300], {"detail": line[:3000], "query": q}, input_hex=q.encode("utf-8", "replace").hex()[:2000])
         rep.coverage.update({
             "evaluations": totals["embeddings"], "distinct_nontrivial": totals["checked"],
-            "rule": "every SELECT/WITH statement of the corpus without FORMAT/SETTINGS/INTO OUTFILE tail (+ composed queries: set operations, nesting, WITH) x 14 embeddings (FROM subquery with and without alias, IN, EXISTS, scalar subquery, CTE body, JOIN operand, CREATE VIEW / MATERIALIZED VIEW AS, INSERT SELECT, EXPLAIN / AST / SYNTAX, statement-level parentheses); "
+            "rule": "every SELECT/WITH statement of the corpus and 2.5k (quick) / 40k (thorough) SELECT and set-operation statements of the verification grammar, plus 54 multi-KB queries whose last tokens straddle the lexer buffer boundary, without FORMAT/SETTINGS/INTO OUTFILE tail (+ composed queries: set operations, nesting, WITH) x 14 embeddings (FROM subquery with and without alias, IN, EXISTS, scalar subquery, CTE body, JOIN operand, CREATE VIEW / MATERIALIZED VIEW AS, INSERT SELECT, EXPLAIN / AST / SYNTAX, statement-level parentheses); "
                     "the lines of Explain(q) must occur as one contiguous, uniformly indented whole-subtree block; each embedding explained twice after different random histories of earlier Explain calls and every N-th query re-evaluated in a fresh process; distinct_nontrivial = queries checked",
             "samples": samples or ["-"], "trusted_base": TRUSTED,
         })
+    # rendering must not depend on where the query stands in the input: the lexer is a function of the bytes (tie the lexer
+    # model, over which that is proved, to the CURRENT lexer.go)
+    import lexcommon
+    lexcommon.lexer_premise(rep, broken, ())
     verif.report_broken(rep, broken, found)
     rep.assumptions = ["contexts embed at depth >= 1; identifiers without line breaks"]
 
